@@ -165,6 +165,7 @@ def check_reused(ctx, c):
     from vf.gen.types import Builder, ref_bound, wire_ty
 
     B = Builder()
+    B.no_share = True     # (this stratum mutates the objects it builds)
     d1, d2 = c["d1"], c["d2"]
     t = B.ty(d1)
     t2 = B.ty(d2)
